@@ -37,10 +37,10 @@ UNLOADABLE = {'v': 'unloadable', 'kids': ()}
 LOST = {'v': 'lost', 'kids': ()}
 BLOBREC = {'v': 'blobrec', 'kids': ()}
 DEVIATIONS = ('AliasCreating', 'SpBlobByName', 'InvalidateDoomed', 'LeakUnstored')
-COMMIT_END = ('Finish', 'FinishThenFail', 'FailBegun', 'StoreRaises', 'StoreConflict', 'CommitSpConflict', 'FailStored',
-              'FailVoted')
-FAILURES = ('FailBeforeBegin', 'FailBegun', 'StoreRaises', 'StoreConflict', 'CommitSpConflict', 'FailStored', 'FailVoted',
-            'FinishThenFail')
+COMMIT_END = ('Finish', 'FinishThenFail', 'FailBegun', 'StoreRaises', 'StoreConflict', 'CommitSpConflict', 'CommitSpRaises',
+              'FailStored', 'FailVoted')
+FAILURES = ('FailBeforeBegin', 'FailBegun', 'StoreRaises', 'StoreConflict', 'CommitSpConflict', 'CommitSpRaises', 'FailStored',
+            'FailVoted', 'FinishThenFail', 'SavepointRaises')
 # which deviation of the code makes a clause of `mon` possible (the design, all four cleared, satisfies every clause)
 CLAUSE_DEVIATION = {'state-lost': 'InvalidateDoomed', 'owned-uncommitted': 'LeakUnstored',
                     'rollback-owner': 'AliasCreating', 'rollback-value': 'SpBlobByName'}
@@ -695,6 +695,22 @@ class ConnReplayer:
     def do_Savepoint(self, st):
         self.sps.append(self.tm1.savepoint())
 
+    def do_SavepointRaises(self, o, st):
+        """transaction.savepoint() raising part-way (an unpicklable value in o), then the caller's abort()"""
+        self.shape[o].poison(self.objs[o])
+        dead = self._drop_savepoints()
+        try:
+            try:
+                self.tm1.savepoint()
+            except Injected as e:
+                self.last_exc = e
+            else:
+                raise Mismatch('savepoint.outcome', 'raises', 'returned')
+        finally:
+            self.shape[o].unpoison(self.objs[o])
+        self.tm1.abort()
+        self._check_dead(dead)
+
     def do_Rollback(self, k, st):
         self.sps[k - 1].rollback()
         dead = self.sps[k:]
@@ -786,7 +802,7 @@ class ConnReplayer:
                 self.snaps.append((tag, self.project()))
             return cb
         rma.hooks = {'tpc_begin': snap('Begin'), 'commit': snap('Stored'), 'tpc_vote': snap('Vote')}
-        stepwise = 'CommitSp' not in names and 'CommitSpConflict' not in names
+        stepwise = not any(n in names for n in ('CommitSp', 'CommitSpConflict', 'CommitSpRaises'))
         poisoned = None
         if end == 'FailBegun':
             if alt:
@@ -805,7 +821,7 @@ class ConnReplayer:
                 rma.fail = 'tpc_vote'
         elif end == 'FinishThenFail':
             rma.fail = 'tpc_finish'
-        elif end == 'StoreRaises':
+        elif end in ('StoreRaises', 'CommitSpRaises'):
             poisoned = str(steps[-1]['args'][0])
             self.shape[poisoned].poison(self.objs[poisoned])
         if stepwise:
